@@ -18,6 +18,9 @@ use crate::util::{arg, arg_u64, catch, read_ndjson, Trace};
 const ADDR: BtAddr = BtAddr([1, 2, 3, 4, 5, 6]);
 const WND: u8 = 3;
 
+pub fn poll_once_pub<F: Future>(f: F) -> Option<F::Output> {
+    poll_once(f)
+}
 fn poll_once<F: Future>(f: F) -> Option<F::Output> {
     let mut f = pin!(f);
     let mut cx = Context::from_waker(Waker::noop());
